@@ -8,15 +8,16 @@ Import ListNotations.
 Definition completes (r:rres (expr * path)) : Prop := (exists z, r = ROk z) \/ r = RRaises RInexact.
 Lemma completes_ok z : completes (ROk z). Proof. left. eauto. Qed.
 
-Lemma fconst_completes_add_mul k x y K root p : (k = KAdd \/ k = KMul) ->
-  completes (dor res <- fconst (fold_bin k x y) K; ROk (replace root p res, p)).
-Proof. intros [-> | ->]; simpl; apply completes_ok. Qed.
 Lemma fconst_completes k x y K root p : k <> KEq ->
   completes (dor res <- fconst (fold_bin k x y) K; ROk (replace root p res, p)).
 Proof.
-  intros Hk. destruct k; try (exfalso; now apply Hk); simpl; try apply completes_ok.
-  destruct (npow x y); simpl; [apply completes_ok|right; reflexivity].
+  intros Hk. unfold fold_bin. destruct x, y; try (right; reflexivity);
+    (destruct k; try (exfalso; now apply Hk); cbn [fold_fin fconst rbind]; try apply completes_ok;
+     match goal with |- context[npow ?a ?b] => destruct (npow a b); cbn [fconst rbind]; [apply completes_ok|right; reflexivity] end).
 Qed.
+Lemma fconst_completes_add_mul k x y K root p : (k = KAdd \/ k = KMul) ->
+  completes (dor res <- fconst (fold_bin k x y) K; ROk (replace root p res, p)).
+Proof. intros [-> | ->]; apply fconst_completes; discriminate. Qed.
 
 (* ---------- constant arithmetic ---------- *)
 Theorem const_total root p : isSome (const_type root p) = true -> completes (const_apply root p).
